@@ -219,6 +219,17 @@ def _no_pawn_checks(P):
             t["f"]["fn"] = "chess_lookup::king_moves"
 
 
+
+@rule("C03.W", "type-level: compile-fail witnesses with compiling twins (K6; thorough tier)")
+def rw(ctx):
+    from analysis import witness
+    if ctx.config != "ws":
+        return
+    witness.check(ctx, {'c03_checkers_private': 'code outside chess-movegen could overwrite the cached `checkers` set', 'c03_pinned_private': 'code outside chess-movegen could overwrite the cached `pinned` set'})
+
+
+rw.thorough_only = True
+
 CONTROLS = [
     ("state(): clock > 100", "C03.R1", _threshold),
     ("state(): Check and Running swapped", "C03.R1", _swap_states),
